@@ -30,3 +30,23 @@ package rtpklv
 //@     invariant forall j :: 0 <= j && j < len(packets) ==> ref(packets[j].Payload) == ref(unit) && off(packets[j].Payload) == off(unit) + j*e.PayloadMaxSize
 //@     invariant forall j :: 0 <= j && j < len(packets) && (j < len(packets)-1 || offset < len(unit)) ==> len(packets[j].Payload) == e.PayloadMaxSize
 //@     decreases len(unit) - offset
+
+// ---------------------------------------------------------------------------
+// Decoder (C08)
+
+// The format documents no maximum unit size and the decoder enforces none: the bound
+// below (8 MiB plus a packet) is what "bounded memory" would mean; the clause is the
+// recorded finding C08/klv-unbounded (see /verif/known_findings.json).
+//@ typeinv Decoder d
+//@   inv[C08] !d.assembling ==> d.buffer == nil
+//@   inv[C08] d.assembling ==> len(d.buffer) >= 1
+//@   inv[C08] len(d.buffer) <= 8388608 + 65535
+
+//@ func (d *Decoder) Decode
+//@   opt safety-tag=C08
+//@   opt frame-tag=C08
+//@   requires len(pkt.Payload) <= 65535
+//@   ensures[C08] err != nil || len(ret) > 0
+//@   ensures[C08] err != nil ==> ret == nil
+//@   ensures[C08] err == nil ==> d.buffer == nil
+//@   modifies fields(d), elems(d.buffer), fresh
